@@ -38,6 +38,11 @@ CHECKS = {
     technique='runtime monitoring: contract on find_top_level_manifest comparing every call with an independent upward walk, over exhaustive short chains and seeded deep ones, incl. tmpfs device boundaries in a private mount namespace',
     text='All chains of depth <= 2 (quick) / 3 (thorough) over per-level Manifest kind x IGNORE kind, from every start depth, absolute and relative start, both flags, are materialised on disk; a contract compares each real call with an independent model. Device boundaries are real: a tmpfs mounted at a chain level inside unshare -m (fallback /dev/shm, recorded in the evidence).',
     note='Trusted: vf/model/findtop.py and the independent Manifest reader. Start directories reached via symlinks and syntactically invalid Manifests on the chain are not generated.'),
+ 'C01': dict(
+    category='exploration', design='3 C01',
+    technique='runtime monitoring: real recursive verifier (library + CLI) on seeded mutated trees vs independent match predicate; hash_file hook (skip-set), icontract contracts on path_starts_with/path_inside_dir/find_top_level_manifest',
+    text='Seeded trees with consistent Manifest layouts (nesting, split Manifests, five compression formats, duplicate entries, IGNORE look-alikes, symlinks, hidden and special files) get 0..3 mutations from 23 classes; assert_directory_verifies and `gemato verify` run on a random sub-path and last_mtime and must accept exactly when the independent predicate finds no offender. A hook records which files were really hashed, so an unlicensed skip is seen even when contents still match.',
+    note='Trusted: vf/model/match.py, vf/model/mtext.py. Zones U1-U4, U10, U11 (entries beneath IGNORE, IGNORE+entry, dangling links, licensed mtime skips, unnormalised paths, entries beneath a file) are unconstrained. Small trees (<= 14 files).'),
 }
 
 def main():
